@@ -162,6 +162,12 @@ let run_c09 toks =
           let fa = cat fb and ca = cat cb in
           Printf.sprintf "stream files=%d %s cas=%d %s" (List.length fb) (cksum fa 0 (Array.length fa)) (List.length cb) (cksum ca 0 (Array.length ca))
         | None -> "stream MODEL-ERROR") in
+    (* the minimal reader's buffer (what MDBMinimalShard::serialize writes between the header and the footer) and its counts *)
+    let l4 = (match minimal_from_reader bytes true true with
+        | Some mn ->
+          let a = Array.of_list (List.map int_of_n mn.mn_data) in
+          Printf.sprintf "min data=%s files=%d cas=%d" (cksum a 0 (Array.length a)) (List.length mn.mn_file_offsets) (List.length mn.mn_cas_offsets)
+        | None -> "min MODEL-ERROR") in
     let nq = ref 0 in
     let qs = List.filter_map (fun op -> match op with
         | ["qf"; h] ->
@@ -184,7 +190,7 @@ let run_c09 toks =
                   (match found with Some c -> Printf.sprintf "qc%d found %s" !nq (cksum_str (dump_cas c)) | None -> Printf.sprintf "qc%d notfound" !nq)) in
           incr nq; Some r
         | _ -> None) ops in
-    l1 :: l2 :: l3 :: qs
+    l1 :: l2 :: l3 :: l4 :: qs
 
 let eight = S (S (S (S (S (S (S (S O)))))))
 let disk_candidates bytes ft qs =
